@@ -164,9 +164,12 @@ func C07(tier string) int {
 
 	// base states from a short exploration (files kept)
 	k0 := newKitchen("tx base states", kFeat{orgs: true, places: true, pets: true, rc: true, maxCount: 2})
-	depth := 1
+	// quick: every body on the states of depth <= 1; on the states of depth 2 only the bodies made of one delete
+	// (a delete that a constraint refuses needs a referrer, i.e. a history of two operations)
+	depth := 2
+	fullDepth := 1
 	if thorough {
-		depth = 2
+		fullDepth = 2
 	}
 	brep := report.New("C07-base", tier, "fault_enumeration")
 	ex := &explore.Explorer{Sc: k0, Cfg: explore.Config{Programs: explore.SingleOps(len(k0.Ops())), MaxDepth: depth, KeepFiles: true}, Rep: brep}
@@ -176,9 +179,6 @@ func C07(tier string) int {
 		rep.Violation("C07|base-exploration", "the base-state exploration itself found violations (see C06/C15)", nil)
 	}
 	states := ex.States
-	if !thorough && len(states) > 60 {
-		states = states[:60]
-	}
 	rep.Count("base_states", int64(len(states)))
 
 	// fault points active?
@@ -245,12 +245,22 @@ func C07(tier string) int {
 					}
 				}
 			}
+			var deleteBodies [][]int
+			for i, o := range ops {
+				if strings.HasPrefix(o.Name, "delete") {
+					deleteBodies = append(deleteBodies, []int{i})
+				}
+			}
 			for {
 				i := int(atomic.AddInt64(&next, 1))
 				if i >= len(states) || rep.TooMany() {
 					return
 				}
-				c07State(rep, w, ops, bodies, states[i], faultsActive, thorough)
+				sb := bodies
+				if states[i].Depth > fullDepth {
+					sb = deleteBodies
+				}
+				c07State(rep, w, ops, sb, states[i], faultsActive, thorough)
 			}
 		}()
 	}
@@ -355,7 +365,14 @@ func c07State(rep *report.Report, w *c07World, ops []explore.Op, bodies [][]int,
 		// ... and every body made of one delete (a refused delete is re-run by bbolt's batch machinery on its own)
 		oneDelete := len(body) == 1 && strings.HasPrefix(ops[body[0]].Name, "delete")
 		if bi%40 == 0 || oneDelete {
-			for _, f := range []c07Fault{{kind: "none"}, {kind: "caller", callerAt: len(body)}, {kind: "precommit", pre: "F"}, {kind: "precommit", pre: "FS"}, {kind: "precommit", pre: "oF"}} {
+			bfaults := []c07Fault{{kind: "none"}, {kind: "caller", callerAt: len(body)}, {kind: "precommit", pre: "F"}, {kind: "precommit", pre: "FS"}, {kind: "precommit", pre: "oF"}}
+			if oneDelete {
+				// a vetoed delete: bbolt runs the failed function a second time on its own, with the same mutate context
+				for _, sn := range c07StoreNames {
+					bfaults = append(bfaults, c07Fault{kind: "veto", vetoStore: sn, vetoKind: boltz.EntityDeleted})
+				}
+			}
+			for _, f := range bfaults {
 				c07Run(rep, w, h, ops, body, st, m, reject, f, "Batch", pre, preHash)
 			}
 		}
